@@ -58,6 +58,8 @@ def variant_branches(mod, f):
 def analyse_branch(mod, body):
     """returns dict(loop, guards(set of offsets tested for None), value_tests, refs(set of offsets in appended expr), expr node, padding)"""
     loop = next((s for s in body if isinstance(s, ast.For)), None)
+    if loop is not None and unparse(loop.target) != 't':
+        loop = zip_slices_view(mod, loop, body)
     if loop is None or unparse(loop.target) != 't':
         raise Unrecognised('no loop over t')
     top_if = next((s for s in loop.body if isinstance(s, ast.If)), None)
@@ -102,6 +104,57 @@ def analyse_branch(mod, body):
                 if isinstance(p, ast.List) and len(p.elts) == 2:
                     pad = (const(p.elts[0]), const(p.elts[1]))
     return dict(loop=loop, guards=guards, value_refs=value_refs, refs=refs, expr=expr, pad=pad)
+
+
+def zip_slices_view(mod, loop, body):
+    """for u, v in zip(self.content[a:...], self.content[b:...]): B     is read as the index loop
+           for t in range(p, p + n): B[u := self.content[t + a - p], v := self.content[t + b - p]]
+    where n is the common length of the slices and p the front padding of the returned Corr (entry k of the result is timeslice
+    k + p).  The stencil / guard / range checks then run on the index form."""
+    import copy as _copy
+    it = loop.iter
+    if isinstance(loop.target, ast.Name) and isinstance(it, ast.Subscript) and unparse(it.value) == 'self.content' and isinstance(it.slice, ast.Slice):
+        names, slices = [loop.target.id], [it.slice]
+    elif isinstance(it, ast.Call) and call_name(it) == 'zip' and isinstance(loop.target, ast.Tuple) and len(loop.target.elts) == len(it.args) \
+            and all(isinstance(x, ast.Name) for x in loop.target.elts) and all(isinstance(a, ast.Subscript) and unparse(a.value) == 'self.content' and isinstance(a.slice, ast.Slice) for a in it.args):
+        names, slices = [x.id for x in loop.target.elts], [a.slice for a in it.args]
+    else:
+        return loop
+    pad = None
+    for s_ in body:
+        for c in walk(s_):
+            if isinstance(c, ast.Call) and call_name(c) == 'Corr' and kwarg(c, 'padding') is not None and isinstance(kwarg(c, 'padding'), ast.List) and len(kwarg(c, 'padding').elts) == 2:
+                pad = const(kwarg(c, 'padding').elts[0])
+    if pad is None:
+        return loop
+    starts, lens = [], []       # length of slice i = T - cut_i
+    for sl in slices:
+        if sl.step is not None:
+            return loop
+        a = 0 if sl.lower is None else const(sl.lower)
+        b = 0 if sl.upper is None else const(sl.upper)
+        if a is None or b is None or a < 0 or b > 0:
+            return loop             # only [a:], [a:-b] with literal a >= 0, b >= 0
+        starts.append(a)
+        lens.append(a - b)          # T - a + b  ->  cut = a - b
+    cut = max(lens)                 # zip stops with the shortest slice: n = T - cut
+    sub = {nm: 'self.content[t%s]' % ('' if a - pad == 0 else (' + %d' % (a - pad) if a - pad > 0 else ' - %d' % (pad - a))) for nm, a in zip(names, starts)}
+    new = _copy.deepcopy(loop)
+
+    class R(ast.NodeTransformer):
+        def visit_Name(self, n):
+            if n.id in sub and isinstance(n.ctx, ast.Load):
+                return ast.copy_location(ast.parse(sub[n.id], mode='eval').body, n)
+            return n
+    new.body = [R().visit(b_) for b_ in new.body]
+    new.target = ast.copy_location(ast.Name(id='t', ctx=ast.Store()), loop.target)
+    hi = 'self.T' if cut - pad == 0 else ('self.T - %d' % (cut - pad) if cut - pad > 0 else 'self.T + %d' % (pad - cut))
+    new.iter = ast.copy_location(ast.parse('range(%s%s)' % ('%d, ' % pad if pad else '', hi), mode='eval').body, loop.iter)
+    ast.fix_missing_locations(new)
+    for n_ in ast.walk(new):
+        for ch in ast.iter_child_nodes(n_):
+            mod.parents.setdefault(ch, n_)
+    return new
 
 
 def loop_range(loop):
@@ -331,6 +384,9 @@ def run(ctx):
 
 
 SELFTEST = [
+    ('benign-zip-slices', 'pyerrors/correlators.py', '            for t in range(1, self.T - 1):\n                if (self.content[t - 1] is None) or (self.content[t + 1] is None):\n                    newcontent.append(None)\n                else:\n                    newcontent.append(0.5 * (self.content[t + 1] - self.content[t - 1]))\n            if (all([x is None for x in newcontent])):\n                raise ValueError(\'Derivative is undefined at all timeslices\')\n            return Corr(newcontent, padding=[1, 1])\n        elif variant == "forward":', '            for before, after in zip(self.content[:-2], self.content[2:]):\n                if before is None or after is None:\n                    newcontent.append(None)\n                else:\n                    newcontent.append(0.5 * (after - before))\n            if (all([x is None for x in newcontent])):\n                raise ValueError(\'Derivative is undefined at all timeslices\')\n            return Corr(newcontent, padding=[1, 1])\n        elif variant == "forward":', 'BENIGN'),
+    ('zip-slices-wrong-offset', 'pyerrors/correlators.py', '            for t in range(1, self.T - 1):\n                if (self.content[t - 1] is None) or (self.content[t + 1] is None):\n                    newcontent.append(None)\n                else:\n                    newcontent.append(0.5 * (self.content[t + 1] - self.content[t - 1]))\n            if (all([x is None for x in newcontent])):\n                raise ValueError(\'Derivative is undefined at all timeslices\')\n            return Corr(newcontent, padding=[1, 1])\n        elif variant == "forward":', '            for before, after in zip(self.content[:-2], self.content[1:-1]):\n                if before is None or after is None:\n                    newcontent.append(None)\n                else:\n                    newcontent.append(0.5 * (after - before))\n            if (all([x is None for x in newcontent])):\n                raise ValueError(\'Derivative is undefined at all timeslices\')\n            return Corr(newcontent, padding=[1, 1])\n        elif variant == "forward":', 'C15-D1'),
+    ('zip-slices-wrong-padding', 'pyerrors/correlators.py', '            for t in range(1, self.T - 1):\n                if (self.content[t - 1] is None) or (self.content[t + 1] is None):\n                    newcontent.append(None)\n                else:\n                    newcontent.append(0.5 * (self.content[t + 1] - self.content[t - 1]))\n            if (all([x is None for x in newcontent])):\n                raise ValueError(\'Derivative is undefined at all timeslices\')\n            return Corr(newcontent, padding=[1, 1])\n        elif variant == "forward":', '            for before, after in zip(self.content[:-2], self.content[2:]):\n                if before is None or after is None:\n                    newcontent.append(None)\n                else:\n                    newcontent.append(0.5 * (after - before))\n            if (all([x is None for x in newcontent])):\n                raise ValueError(\'Derivative is undefined at all timeslices\')\n            return Corr(newcontent, padding=[0, 2])\n        elif variant == "forward":', 'C15-D1'),
     ('sinh-fill-integer-division', 'pyerrors/correlators.py', "t in [self.T / 2, self.T / 2 - 1]", "t in [self.T // 2, self.T // 2 - 1]", 'C15-D4'),
     ('fix-reverted-second-deriv', 'pyerrors/correlators.py', "                if (self.content[t - 1] is None) or (self.content[t] is None) or (self.content[t + 1] is None):\n                    newcontent.append(None)\n                else:\n                    newcontent.append((self.content[t + 1] - 2", "                if (self.content[t - 1] is None) or (self.content[t + 1] is None):\n                    newcontent.append(None)\n                else:\n                    newcontent.append((self.content[t + 1] - 2", 'C15-D1'),
     ('over-guarded', 'pyerrors/correlators.py', "                if (self.content[t - 1] is None) or (self.content[t + 1] is None):\n                    newcontent.append(None)\n                else:\n                    newcontent.append(0.5 * (", "                if (self.content[t - 1] is None) or (self.content[t] is None) or (self.content[t + 1] is None):\n                    newcontent.append(None)\n                else:\n                    newcontent.append(0.5 * (", 'C15-D1'),
